@@ -123,8 +123,10 @@ class Machine:
         res.fault = None
         res.verdicts = []
         cycles_checked = 0
+        entry_pred = ()
         if mon is not None:
             mon.start(self, prog, mem)
+            entry_pred = getattr(self, 'entry_pred', ())
 
         try:
             while True:
@@ -182,6 +184,8 @@ class Machine:
                             else:
                                 halted = a >= b
                     if not halted:
+                        if entry_pred and pc in entry_pred:
+                            mon.fallthrough(pc)
                         pc += 1
                         continue
                     # a halt was reached
@@ -268,6 +272,8 @@ class Machine:
                             mon.jump(pc, target, True)
                         pc = target
                     else:
+                        if entry_pred and (pc + skip - 1) in entry_pred:
+                            mon.fallthrough(pc + skip - 1)
                         pc += skip
                     continue
 
@@ -405,6 +411,8 @@ class Machine:
                     pc += 1
                     continue
 
+                if entry_pred and pc in entry_pred:
+                    mon.fallthrough(pc)
                 if op == FLAG:
                     events.append(('f', ins[2]))
                     pc += 1
